@@ -148,3 +148,22 @@ def check(ctx):
                 "list0/drop-drains", "mpsc_list Drop frees the stub only after pop() returned None", pred_label="edge `pop().is_some()` is false")
     # dependency: the users of the list keep its head report meaningful (rule owned by C08)
     ctx.import_rules("C08", r"^list/")
+    # node reference counting: a node is shared by the list (link bit) and the Entry handle; it is freed by whoever brings `refs` to 0,
+    # after decrementing it, and by nobody else (freeing on any other edge is a use-after-free by the other owner / a leak)
+    def refs_zero(a):
+        return a.kind == "cmp" and a.op == "Eq" and is_const(0)(a.b) and all_fields(simplify(a.a))[-1:] == [N + ".refs"]
+    FREE = Call(r"(std|alloc)::boxed::Box::from_raw", transitive=False)
+    for fid, short in ((L + "::Entry::remove", "remove"), ("<may_queue::mpsc_list_v1::Entry as std::ops::Drop>::drop", "entry-drop"), (L + "::Queue::pop", "pop"), (L + "::Queue::pop_if", "pop_if")):
+        f = ctx.fn("R-EXIT", fid, "refs/%s/free-only-at-zero" % short)
+        if f is None: continue
+        if not ctx.an.sites(f, FREE, "must") or not ctx.edges(f, refs_zero):
+            ctx.missing("R-EXIT", fid, "refs/%s/free-only-at-zero" % short, "Box::from_raw sites=%d `refs == 0` edges=%d" % (len(ctx.an.sites(f, FREE, "must")), len(ctx.edges(f, refs_zero)))); continue
+        ctx.guarded(fid, FREE, refs_zero, "refs/%s/free-only-at-zero" % short, "%s frees the node only behind `refs == 0`" % short, pred_label="edge `node.refs == 0`")
+        ctx.must_follow(fid, None, FREE, "refs/%s/zero-frees" % short, "%s frees the node when its reference was the last one" % short, rule="R-PAIR", edge=refs_zero, edge_label="edge `node.refs == 0`")
+        ctx.order(fid, Write(N + ".refs"), FREE, "refs/%s/decrement-then-free" % short, "the reference is given up (refs written) before the node can be freed")
+    f = ctx.fn("R-ENUM", L + "::Entry::is_link", "refs/is-link-tests-link-bit")
+    if f is not None:
+        rv = simplify(trace_local(f, 0))
+        ok = rv[0] == "bin" and rv[1] == "Ne" and is_const(0)(simplify(rv[3])) and simplify(rv[2])[0] == "bin" and simplify(rv[2])[1] == "BitAnd"
+        ctx.ob("R-ENUM", L + "::Entry::is_link", "refs/is-link-tests-link-bit", ok, "is_link() is `refs & !REF_COUNT_MASK != 0`" if ok else
+               "is_link() is no longer `refs & !REF_COUNT_MASK != 0` (%s): Park::remove_timeout_handle drops a handle that is still linked (the timer stays armed) or sends unlinked ones to the timer thread" % fmt_origin(rv)[:80], f.where())
